@@ -27,7 +27,7 @@ RULE = (
     "judged. Non-trivial: the operands cross and the factor is outside [0.5, 2] or |t| >= 1e3 or the angle is "
     "not a multiple of 90 degrees."
 )
-MANDATORY = ["rational", "float", "curved", "scale<0.5", "scale>2", "shift>=1e3", "rotation", "subset", "crossing"]
+MANDATORY = ["rational", "float", "curved", "millimetre-drawing", "scale<0.5", "scale>2", "shift>=1e3", "rotation", "subset", "crossing"]
 
 
 def make_map(T, exact):
@@ -110,6 +110,10 @@ def judge(ctx, case):
         strata.append("rotation")
     if ncross:
         strata.append("crossing")
+    if case.get("unit_size"):
+        strata.append("unit-size-drawing")
+        if s <= 0.01:
+            strata.append("millimetre-drawing")
     ctx.evaluated(case, ncross > 0 and (s < 0.5 or s > 2 or shift >= 1e3 or rotated), strata)
     where = strata[0] + ":" + op
     RA, RB = lib.spec_region(sa), lib.spec_region(sb)
@@ -133,6 +137,9 @@ def judge(ctx, case):
     ext = max([rg.curve_size(c) for c in ca + cb] + [0.0]) * s
     # (rational data: coordinates are capped at denominator 1e9, i.e. moved by <= 1e-18)
     cancel = 1e-13 * (shift + ext) * ext if not exact else 1e-15 * ext
+    # vertices closer than the library's absolute point tolerance (1e-9) are
+    # identified when pieces are chained: the boundary may move by that much
+    cancel += 4e-9 * ext
     if abs(aT - a0 * s * s) > (1e-9 if not curved else 1e-5) * max(scale_area, abs(aT)) + cancel + 1e-300:
         ctx.violation("similarity", "area-does-not-scale", case, "area %r without T, %r with T (factor^2 = %r)" % (a0, aT, s * s), where)
     # point-wise: T(p) in T(A) op T(B)  iff  p in model
@@ -202,6 +209,14 @@ def cases(draw, mode):
         base = draw(oc.operand_pair(False, nk="float"))
     else:
         base = draw(oc.operand_pair(True))
+    if mode == "rational" and draw(st.booleans()):
+        # a drawing of unit size (the generators work on a lattice of size
+        # 10..60): together with factors down to 1e-3 this reaches
+        # millimetre-sized polygons in metre units, exactly
+        pre = F(1, 60) if base["nk"] == "int" else F(1, 10)
+        base["a"] = lib.spec_map(base["a"], lambda q: (q[0] * pre, q[1] * pre))
+        base["b"] = lib.spec_map(base["b"], lambda q: (q[0] * pre, q[1] * pre))
+        base["unit_size"] = True
     base["op"] = draw(st.sampled_from(oc.OPS))
     base["T"] = draw(similarity(mode == "rational"))
     base["subset"] = draw(st.integers(0, 2)) == 0
